@@ -92,6 +92,15 @@
 /* Next instruction variations */
 #define maybe_collect() do {\
     if (janet_vm.next_collection >= janet_vm.gc_interval) janet_collect(); } while (0)
+#ifdef JANET_VERIF
+/* Verification hook: lets a harness decide the collection schedule at the
+ * interpreter safepoint. <0 suppress, 0 default policy, >0 collect now. */
+int janet_verif_gc_point(void);
+#undef maybe_collect
+#define maybe_collect() do { int verif_gc_ = janet_verif_gc_point(); \
+    if (verif_gc_ > 0 || (verif_gc_ == 0 && janet_vm.next_collection >= janet_vm.gc_interval)) janet_collect(); \
+} while (0)
+#endif
 #define vm_checkgc_next() maybe_collect(); vm_next()
 #define vm_pcnext() pc++; vm_next()
 #define vm_checkgc_pcnext() maybe_collect(); vm_pcnext()
